@@ -29,8 +29,8 @@ Section SEM.
   Variable parse_float : string -> option Q.         (* toFloat64OrNull: Some value / None = not a number *)
   Variable hash64 : string -> Z.                     (* cityHash64 *)
   (* false: a numeric literal of the query means its exact decimal value (the reference meaning).
-     true: it means the value of its %f rendering (six decimals), which is what reaches ClickHouse;
-     only used by the check to tell the recorded finding float-literal-6-decimals from anything else. *)
+     true: it means the value of the text sql.FloatVal prints for it, which is what reaches ClickHouse.
+     Since 57651aa (FormatFloat instead of six decimals) the two agree: lits_exact below, checked on every case. *)
   Variable lit_round : bool.
 
   (* ================================================================ 2. reference meaning *)
@@ -39,7 +39,7 @@ Section SEM.
     let m := (Z.of_N (d_int d) * 10 ^ Z.of_nat (d_flen d) + Z.of_N (d_frac d))%Z in
     Qmake (if d_neg d then - m else m) (Z.to_pos (10 ^ Z.of_nat (d_flen d))).
 
-  (* value of the %f text of a FloatVal / of a bare number *)
+  (* value of the text of a FloatVal / of a bare number *)
   Definition num_of_text (s : string) : option Q := match parse_dec s with Some d => Some (dec_Q d) | None => None end.
   Definition lit_value (v : value) : option Q :=
     if lit_round then match num_text v with Some s => num_of_text s | None => None end
@@ -782,3 +782,19 @@ Section SEM.
       end
     end.
 End SEM.
+
+(* ---------- the literal that reaches ClickHouse is the literal of the query: the text FloatVal prints parses
+   back to exactly the query's number.  A boolean, checked on every harness case. ---------- *)
+Definition lit_exact (v : Traceql.value) : bool :=
+  match lit_value true v, lit_value false v with
+  | Some a, Some b => Qeq_bool a b
+  | None, None => true
+  | _, _ => false
+  end.
+Definition lits_exact (e : attr_exp) : bool := forallb (fun t => lit_exact (a_val t)) (exp_terms e).
+Definition agg_lit_exact (g : aggregator) : bool :=
+  match agg_threshold true g, agg_threshold false g with
+  | Some a, Some b => Qeq_bool a b
+  | None, None => true
+  | _, _ => false
+  end.
